@@ -151,12 +151,84 @@ func runC02(c *Ctx) {
 			}
 			return s.isBackoffValue(cc.Call.Args[0], backoffFns)
 		}
+		// the wait may live in a helper: a bool method whose every path passes such a select (or sleep), whose
+		// procRunCtx.Done() case returns false and whose timer case returns true
+		waitHelper := func(in ssa.Instruction) (*ssa.Call, bool) {
+			cc, ok := in.(*ssa.Call)
+			if !ok {
+				return nil, false
+			}
+			w := cc.Call.StaticCallee()
+			if w == nil || len(w.Blocks) == 0 || !s.IsProcessMethod(w) || w.Signature.Results().Len() != 1 {
+				return nil, false
+			}
+			if b, isB := w.Signature.Results().At(0).Type().Underlying().(*types.Basic); !isB || b.Kind() != types.Bool {
+				return nil, false
+			}
+			hasSel := false
+			for x := range Reach(Entry(w), func(x ssa.Instruction) bool { return isTimerSelect(x) || isSleep(x) }, nil) {
+				if isTimerSelect(x) || isSleep(x) {
+					hasSel = true
+				}
+				if _, isRet := x.(*ssa.Return); isRet {
+					return nil, false // a path returns without waiting
+				}
+			}
+			if !hasSel {
+				return nil, false
+			}
+			// result polarity
+			okPol := true
+			AllInstrs(w, func(x ssa.Instruction) {
+				sel, isSel := x.(*ssa.Select)
+				if !isSel || !isTimerSelect(sel) {
+					return
+				}
+				for i, st := range sel.States {
+					if st.Dir != types.RecvOnly {
+						continue
+					}
+					want := s.isTimerOfBackoff(st.Chan, backoffFns)
+					if !want && !CtxDoneOf(st.Chan, s.FRunCtx) {
+						continue
+					}
+					for y := range Reach([]Pt{after(sel)}, nil, selectCaseEdge(sel, i)) {
+						if ret, isRet := y.(*ssa.Return); isRet {
+							b, isK := ConstBool(RetVals(ret)[0])
+							if !isK || b != want {
+								okPol = false
+							}
+						}
+					}
+				}
+			})
+			return cc, okPol
+		}
 		for _, g := range restartEdges {
 			start := g.If.Block().Succs[g.Succ]
-			vis := Reach([]Pt{{start, 0}}, func(in ssa.Instruction) bool { return isTimerSelect(in) || isSleep(in) }, nil)
+			vis := Reach([]Pt{{start, 0}}, func(in ssa.Instruction) bool {
+				_, isH := waitHelper(in)
+				return isTimerSelect(in) || isSleep(in) || isH
+			}, nil)
 			bad := false
 			var sels []*ssa.Select
 			for in := range vis {
+				if hc, isH := waitHelper(in); isH {
+					c.Touch(hc.Call.StaticCallee())
+					// the "stopped" result must not reach the launch
+					_, fe := boolResultEdges(hc)
+					okH := len(fe) > 0
+					for _, g2 := range fe {
+						for y := range Reach([]Pt{{g2.If.Block().Succs[g2.Succ], 0}}, nil, nil) {
+							if launch.MayAt(y) {
+								okH = false
+							}
+						}
+					}
+					c.Check(okH, rWait, p.FuncKey(run)+":stop-case-leaves-loop", p.InstrPos(hc), "a stop during the back-off wait does not reach the launch", "after a stop request during the back-off wait (the wait helper returned false) the launch is still reachable")
+					c.OK(rWait, p.FuncKey(run)+":stop-case-present", p.InstrPos(hc), "the back-off wait helper has a procRunCtx.Done() case")
+					continue
+				}
 				if sel, ok := in.(*ssa.Select); ok && isTimerSelect(sel) {
 					sels = append(sels, sel)
 					continue
